@@ -277,7 +277,7 @@ LAW(F_dyadic_enum, ENUM, 1, 1, 0, "n >= 3 and not all parameters equal 1/2") {
 }
 
 // ------------------------------------------------------------------ (F) forward, random histories
-LAW(F_forward, RC, 24000, 1000000, 640, "n not a power of two with the binary coding, or a coordinate within 1e-6 of 0 or 1") {
+LAW(F_forward, RC, 24000, 1000000, 640, "n not a power of two with the binary coding, or a coordinate within 1e-6 of 0 or 1", 120) {   // 120 s per-case watchdog: a loaded machine stalled unfinished cases past the default 30 s
   Cfg g = genCfg(c);
   size_t m = static_cast<size_t>(g.n - 1);
   bool fromVector = c.oneIn(4);
@@ -326,7 +326,7 @@ LAW(F_forward, RC, 24000, 1000000, 640, "n not a power of two with the binary co
 }
 
 // ------------------------------------------------------------------ (I) inverse
-LAW(I_inverse, RC, 24000, 1000000, 400, "n not a power of two with the binary coding, or an entry below 1e-6") {
+LAW(I_inverse, RC, 24000, 1000000, 400, "n not a power of two with the binary coding, or an entry below 1e-6", 120) {   // 120 s per-case watchdog: a loaded machine stalled unfinished cases past the default 30 s
   Cfg g = genCfg(c);
   vector<double> p = genP(c, g.n);
   c.desc << showCfg(g) << " p " << showV(p);
@@ -382,7 +382,7 @@ LAW(I_inverse, RC, 24000, 1000000, 400, "n not a power of two with the binary co
 }
 
 // ------------------------------------------------------------------ (J) injectivity: left inverse
-LAW(J_left_inverse, RC, 16000, 600000, 200, "n not a power of two with the binary coding, or a coordinate within 1e-6 of 0 or 1, or an entry below 1e-6") {
+LAW(J_left_inverse, RC, 16000, 600000, 200, "n not a power of two with the binary coding, or a coordinate within 1e-6 of 0 or 1, or an entry below 1e-6", 120) {   // 120 s per-case watchdog: a loaded machine stalled unfinished cases past the default 30 s
   Cfg g = genCfg(c, 2);
   size_t m = static_cast<size_t>(g.n - 1);
   unsigned short M = static_cast<unsigned short>(g.method);
@@ -410,6 +410,7 @@ LAW(J_left_inverse, RC, 16000, 600000, 200, "n not a power of two with the binar
   c.nt((g.method == 3 && !powerOfTwo(g.n)) || nearEdge(th) || smallEntry(prefD));
   Simplex s(static_cast<size_t>(g.n), M, g.allowNull, g.prefix);
   int route = static_cast<int>(c.below(4));
+  c.desc << " via " << ROUTE[route];
   applyTheta(c, s, g.prefix, th, allIdx(m), route);
   vector<double> p = s.getFrequencies();
   Simplex r(p, M, g.allowNull, g.prefix);
@@ -434,7 +435,7 @@ LAW(J_left_inverse, RC, 16000, 600000, 200, "n not a power of two with the binar
 }
 
 // ------------------------------------------------------------------ (J) injectivity: separation
-LAW(J_separation, RC, 10000, 400000, 120, "n not a power of two with the binary coding, or the two vectors differ by less than 1e-4") {
+LAW(J_separation, RC, 10000, 400000, 120, "n not a power of two with the binary coding, or the two vectors differ by less than 1e-4", 120) {   // 120 s per-case watchdog: a loaded machine stalled unfinished cases past the default 30 s
   Cfg g = genCfg(c, 2);
   size_t m = static_cast<size_t>(g.n - 1);
   vector<double> a(m);
@@ -465,7 +466,7 @@ LAW(J_separation, RC, 10000, 400000, 120, "n not a power of two with the binary 
 }
 
 // ------------------------------------------------------------------ (C) copy independence
-LAW(C_copy, RC, 12000, 500000, 400, "n >= 2 (there is a parameter to change)") {
+LAW(C_copy, RC, 12000, 500000, 400, "n >= 2 (there is a parameter to change)", 120) {   // 120 s per-case watchdog: a loaded machine stalled unfinished cases past the default 30 s
   Cfg g = genCfg(c);
   size_t m = static_cast<size_t>(g.n - 1);
   unsigned short M = static_cast<unsigned short>(g.method);
@@ -548,7 +549,8 @@ void checkOrderedRoundTrip(vf::Ctx& c, const OrderedSimplex& os, const Cfg& g, c
   auditParams(os, g, prefix, where);
   const vector<double>& got = os.getFrequencies();
   checkOrderedShape(c, got, v.size(), where);
-  double B = 8 * condBound(readTheta(os));
+  // v_i = sum_{j>=i} p_j/j: the conditioning bound of the probabilities times the harmonic number H_33 < 5
+  double B = 5 * condBound(readTheta(os));
   for (size_t i = 0; i < v.size(); ++i) {
     double e = std::fabs(got[i] - v[i]);
     c.observe(string("ordered_roundtrip_err_over_bound_m") + to_string(g.method), e / B);
@@ -563,7 +565,7 @@ vector<double> genOrdered(vf::Ctx& c, int n) {
 }
 }  // namespace
 
-LAW(O_ordered, RC, 18000, 700000, 500, "n not a power of two with the binary coding, or a step between neighbouring values below 1e-6, or a coordinate within 1e-6 of 0 or 1") {
+LAW(O_ordered, RC, 18000, 700000, 500, "n not a power of two with the binary coding, or a step between neighbouring values below 1e-6, or a coordinate within 1e-6 of 0 or 1", 120) {   // 120 s per-case watchdog: a loaded machine stalled unfinished cases past the default 30 s
   Cfg g = genCfg(c);
   size_t n = static_cast<size_t>(g.n), m = n - 1;
   unsigned short M = static_cast<unsigned short>(g.method);
